@@ -92,7 +92,7 @@ def build_m2(fault, arg, acc, other, ios_pub, eph_seed, pin_seed):
     items, shared, acc_pub = hap.pv_m2(acc, eph_seed, ios_pub)
     honest = tlv8.encode(items)
     f = fault
-    if f in ("honest", "m4-state-bitflip", "m4-extra"):
+    if f in ("honest", "m4-state-bitflip", "m4-extra", "m4-error"):
         return honest, honest, shared, acc_pub
     if f == "wire-bitflip":
         return _flip(honest, arg), honest, shared, acc_pub
@@ -212,11 +212,18 @@ def case_verify(p):
         m4 = tlv8.encode([(hap.T_STATE, _flip(b"\x04", arg))])
     elif fault == "m4-extra":
         m4 = tlv8.encode([(hap.T_STATE, b"\x04"), (arg, b"\x01")]) if arg != hap.T_STATE else tlv8.encode([(hap.T_STATE, b"\x04"), (255, b""), (hap.T_STATE, b"\x05")])
+    elif fault == "m4-error":
+        # the accessory rejected the controller's proof (or an attacker altered M4): any error item, whatever its value, ends the attempt
+        m4 = tlv8.encode([(hap.T_STATE, b"\x04"), (hap.T_ERROR, bytes(arg))])
     st = pairdrv.send(gen, m4, expected3, style)
     det["outcome"] = st.label
     if fault == "m4-state-bitflip":
         if st.kind != "raise":
             out.append(("wrong-state-m4-accepted", det))
+        return out
+    if fault == "m4-error":
+        if st.kind != "raise":
+            out.append(("m4-with-error-item-yields-keys", det))
         return out
     if fault == "m4-extra":
         return out
@@ -423,6 +430,7 @@ def faults(quick, seed):
     f += [("enc-wrong-key", None)] + [("enc-wrong-nonce", n) for n in ("PV-Msg03", "PV-Msg01", "PS-Msg06")]
     f += [("m4-state-bitflip", b) for b in range(8)]
     f += [("m4-extra", t) for t in (hap.T_STATE, 1, 9)]
+    f += [("m4-error", bytes([c])) for c in range(256)] + [("m4-error", b""), ("m4-error", b"\x02\x00"), ("m4-error", b"\x00\x02")]
     f += [("reseal:sig-bitflip", b) for b in range(64 * 8)]
     return f
 
